@@ -120,7 +120,7 @@ func checkC08(c *km.Ctx) {
 					if isAuthUser(u) {
 						return true
 					}
-					for f := range k {
+					for _, f := range k.List() {
 						if f.Op == token.EQL && ((f.X == u && isAuthUser(f.Y)) || (f.Y == u && isAuthUser(f.X))) {
 							return true
 						}
@@ -351,7 +351,7 @@ func checkAdminPredicates(c *km.Ctx, s *km.Sem) {
 			}
 			// true: must be under user == adminUser (config) or map lookup ok of an admin group
 			ok2 := rc.State.All(func(k km.Conj) bool {
-				for f := range k {
+				for _, f := range k.List() {
 					if f.Op == token.EQL && ((f.X == ssa.Value(fn.Params[1]) && isConfigElem(f.Y, "AdminUsers")) || (f.Y == ssa.Value(fn.Params[1]) && isConfigElem(f.X, "AdminUsers"))) {
 						return true
 					}
